@@ -179,6 +179,8 @@ pub open spec fn may_send(msg: Message, peer: NodeId) -> bool {
 //@      sig peers: impl IntoIterator<Item = &'a Session>\) => peers: VxIter<&'a Session>)
 //@      requires
 //@        forall|p: &'a Session| #[trigger] peers.has(p) ==> may_send(Message::Announcement(ann), p.id)
+//@        # C10: a relayed announcement is never echoed back to the node that announced it
+//@        forall|p: &'a Session| #[trigger] peers.has(p) ==> p.id != ann.node //[C10]
 //@    fn announce
 //@      attr #[verifier::exec_allows_no_decreases_clause]
 //@      sig peers: impl Iterator<Item = &'a Session>, => peers: VxIter<&'a Session>,
@@ -206,7 +208,7 @@ pub open spec fn into_v<A: Into<B>, B>(a: A) -> B { vstd::std_specs::convert::In
 //@    fn relay
 //@      # closures: tuple-pattern parameters become a variable + `let` (Verus), and the visibility filter gets its contract in place
 //@      body_sub (?s)\.filter\(\|\(id, _\)\| \{\s*relayed_by\s*\.map\(\|relayers\| !relayers\.contains\(id\)\)\s*\.unwrap_or\(true\)[^}]*\}\) => .filter(|__vx_p0: &(&NodeId, &Session)| -> (b: bool) { let (id, _) = __vx_p0; vx_not_relayed_by(relayed_by, id) })
-//@      body_sub \.filter\(\|\(id, _\)\| \*\*id != announcer\) => .filter(|__vx_p1: &(&NodeId, &Session)| -> (b: bool) { let (id, _) = __vx_p1; **id != announcer })
+//@      body_sub \.filter\(\|\(id, _\)\| \*\*id != announcer\) => .filter(|__vx_p1: &(&NodeId, &Session)| -> (b: bool) ensures b ==> *(*__vx_p1).0 != announcer { let (id, _) = __vx_p1; **id != announcer })
 //@      body_sub \.filter\(\|\(id, _\)\| \{\s*if let Some\(rid\) = rid \{ => .filter(|__vx_p2: &(&NodeId, &Session)| -> (b: bool) ensures (rid is Some && b) ==> visible(rid->Some_0, Did(*(*__vx_p2).0)) { let (id, _) = __vx_p2; if let Some(rid) = rid {
 //@      body_sub \.map\(\|doc\| doc\.is_visible_to\(&\(\*id\)\.into\(\)\)\) => .map(|doc: Doc| -> (v: bool) ensures v == visible(doc.rid, Did(**id)) { doc.is_visible_to(&(*id).into()) })
 //@      body_sub \.map\(\|\(_, p\)\| p\); => .map(|__vx_p3: (&NodeId, &Session)| -> (s: &Session) ensures s == __vx_p3.1 { let (_, p) = __vx_p3; p });
